@@ -61,6 +61,13 @@ func runC05(c *Ctx) {
 		}
 	}
 
+	c.Rule("C05-R5", "C", "writer: whether/what a wire field is written depends only on the object fields it carries; reader: persisted fields are restored from the wire struct only (no invented defaults)", 60)
+	for _, spec := range stateCodecs {
+		c.CheckCodecControl(spec, map[string]string{
+			"waitedStatus": "documented back-compat default Default -> Done (R4 checks its exact form)",
+		})
+	}
+
 	c.Rule("C05-R3", "W+G", "id counters: stored only as x = x + 1 in their allocator and from the wire struct in UnmarshalJSON; the id handed out is Itoa of the incremented counter", 8)
 	itoa := P.FuncObj("strconv.Itoa")
 	for _, cn := range []struct{ field, alloc string }{
@@ -83,9 +90,63 @@ func runC05(c *Ctx) {
 				}
 			case "overlord/state.(*State).UnmarshalJSON":
 			default:
-				bad += fmt.Sprintf(" written in %s at %s;", nm, P.Pos(st.Pos()))
+				// a reload helper: unexported, and called only from State.UnmarshalJSON
+				helperOK := false
+				if fo, ok := st.Parent().Object().(*types.Func); ok && !fo.Exported() {
+					uses := P.UsesOf(fo)
+					helperOK = len(uses) > 0
+					for _, u := range uses {
+						if u.Fn == nil || SSAFuncName(u.Fn) != "overlord/state.(*State).UnmarshalJSON" || !u.AsCall {
+							helperOK = false
+						}
+					}
+				}
+				if !helperOK {
+					bad += fmt.Sprintf(" written in %s at %s;", nm, P.Pos(st.Pos()))
+				}
 			}
 		}
+		// every successful reload restores the counter
+		su := P.Func("overlord/state.(*State).UnmarshalJSON")
+		var mustStore func(fn *ssa.Function, recv ssa.Value, depth int) (bool, []*ssa.BasicBlock)
+		mustStore = func(fn *ssa.Function, recv ssa.Value, depth int) (bool, []*ssa.BasicBlock) {
+			cut := func(in ssa.Instruction) bool {
+				switch x := in.(type) {
+				case *ssa.Store:
+					if fa, ok := x.Addr.(*ssa.FieldAddr); ok && fieldOfAddr(fa) == f && fa.X == recv {
+						return true
+					}
+				case *ssa.Call:
+					sf := x.Call.StaticCallee()
+					if sf == nil || sf.Blocks == nil || sf.Pkg != fn.Pkg || depth >= 2 {
+						return false
+					}
+					for i, a := range x.Call.Args {
+						if a == recv && i < len(sf.Params) {
+							if ok, _ := mustStore(sf, sf.Params[i], depth+1); ok {
+								return true
+							}
+						}
+					}
+				}
+				return false
+			}
+			sink := func(in ssa.Instruction) bool {
+				r, ok := in.(*ssa.Return)
+				if !ok {
+					return false
+				}
+				if len(r.Results) == 0 {
+					return true
+				}
+				last := r.Results[len(r.Results)-1]
+				return !isErrorType(last.Type()) || IsNilConst(last)
+			}
+			r := ReachQ{Fn: fn, CutInstr: cut, Sink: sink}.Run()
+			return !r.Found, r.Path
+		}
+		okRestore, path := mustStore(su, su.Params[0], 0)
+		c.Check(okRestore, "overlord/state.State."+cn.field+"#restored-on-every-reload", su.Pos(), "every successful State.UnmarshalJSON path stores the counter", fmt.Sprintf("State.UnmarshalJSON can succeed without restoring %s (path %s): ids handed out before the restart are handed out again", cn.field, P.PathString(path)))
 		c.Check(bad == "" && n >= 2, "overlord/state.State."+cn.field+"#writers", f.Pos(), fmt.Sprintf("%d stores: increment in %s, reload in UnmarshalJSON", n, cn.alloc), "id counter discipline broken:"+bad)
 		// the id handed out
 		afn := P.Func(cn.alloc)
